@@ -6,6 +6,7 @@
 # its property's quantifier: it would turn a harmless correspondence break into a bogus replay.
 set -u
 H=/verif/harness/target/release/ipt_harness
+( cd /verif/harness && CARGO_NET_OFFLINE=true cargo build --release --offline >/dev/null 2>&1 )   # against /repo as it is now
 T=$(mktemp -d /tmp/ipt_handover.XXXX)
 for u in extlat adj raw ptdt imsaak; do $H corr $u quick ${1:-7} | cut -f1 >> $T/req.txt; done
 rc=0
